@@ -670,4 +670,197 @@ theorem rightSpec_fam (T : TablesOK) {fm : FamMap} {eoc : List String} {expr : S
           rw [famQual?_some hfq, T.outTab s (Stem.mem_all s) b] at hl
           exact (Option.some.inj hl).symm
 
+/-! ### nesting: the family map from `[runtime]` inheritance -/
+
+/-- `n` inherits from `p`, directly or through any number of intermediate namespaces -/
+inductive Inherits (d : Decls) : String → String → Prop
+  | direct {n p : String} : p ∈ parentsOf d n → Inherits d n p
+  | step {n q p : String} : q ∈ parentsOf d n → Inherits d q p → Inherits d n p
+
+/-- … through at most `k` inheritance steps -/
+inductive InheritsN (d : Decls) : Nat → String → String → Prop
+  | direct {k : Nat} {n p : String} : p ∈ parentsOf d n → InheritsN d (k + 1) n p
+  | step {k : Nat} {n q p : String} : q ∈ parentsOf d n → InheritsN d k q p → InheritsN d (k + 1) n p
+
+/-- … along a path whose inheriting namespaces all come from the list `S` -/
+inductive InhIn (d : Decls) (S : List String) : String → String → Prop
+  | direct {n p : String} : n ∈ S → p ∈ parentsOf d n → InhIn d S n p
+  | step {n q p : String} : n ∈ S → q ∈ parentsOf d n → InhIn d S q p → InhIn d S n p
+
+theorem mem_ancestors_iff (d : Decls) : ∀ (k : Nat) (n p : String),
+    p ∈ ancestors d k n ↔ InheritsN d k n p
+  | 0, n, p => by
+    simp only [ancestors, List.not_mem_nil, false_iff]
+    intro h; cases h
+  | k + 1, n, p => by
+    simp only [ancestors, List.mem_append, List.mem_flatMap]
+    constructor
+    · rintro (h | ⟨q, hq, hp⟩)
+      · exact .direct h
+      · exact .step hq ((mem_ancestors_iff d k q p).mp hp)
+    · intro h
+      cases h with
+      | direct h => exact Or.inl h
+      | step hq hp => exact Or.inr ⟨_, hq, (mem_ancestors_iff d k _ p).mpr hp⟩
+
+theorem InheritsN.mono {d : Decls} : ∀ {k j : Nat} {n p : String}, InheritsN d k n p → k ≤ j → InheritsN d j n p
+  | _, j, _, _, .direct h, hkj => by
+    obtain ⟨j', rfl⟩ : ∃ j', j = j' + 1 := ⟨j - 1, by omega⟩
+    exact .direct h
+  | _, j, _, _, .step hq hp, hkj => by
+    obtain ⟨j', rfl⟩ : ∃ j', j = j' + 1 := ⟨j - 1, by omega⟩
+    exact .step hq (InheritsN.mono hp (by omega))
+
+theorem InheritsN.toInherits {d : Decls} : ∀ {k : Nat} {n p : String}, InheritsN d k n p → Inherits d n p
+  | _, _, _, .direct h => .direct h
+  | _, _, _, .step hq hp => .step hq hp.toInherits
+
+theorem InhIn.src_mem {d : Decls} {S : List String} {n p : String} (h : InhIn d S n p) : n ∈ S := by
+  cases h <;> assumption
+
+/-- either the path avoids `a`, or the part after its last visit to `a` does -/
+theorem InhIn.split {d : Decls} {S : List String} {n p : String} (h : InhIn d S n p) (a : String) :
+    InhIn d (S.erase a) n p ∨ ∃ q, q ∈ parentsOf d a ∧ (q = p ∨ InhIn d (S.erase a) q p) := by
+  induction h with
+  | @direct n p hn hp =>
+    by_cases e : n = a
+    · subst e; exact Or.inr ⟨p, hp, Or.inl rfl⟩
+    · exact Or.inl (.direct ((List.mem_erase_of_ne e).mpr hn) hp)
+  | @step n q p hn hq _ ih =>
+    rcases ih with ih | ih
+    · by_cases e : n = a
+      · subst e; exact Or.inr ⟨q, hq, Or.inr ih⟩
+      · exact Or.inl (.step ((List.mem_erase_of_ne e).mpr hn) hq ih)
+    · exact Or.inr ih
+
+/-- pigeon-hole: a path whose sources come from `S` can be shortened to at most `|S|` steps -/
+theorem InhIn.bounded {d : Decls} : ∀ (k : Nat) (S : List String) {n p : String},
+    S.length ≤ k → InhIn d S n p → InheritsN d k n p
+  | 0, S, n, p, hk, h => by
+    have := h.src_mem
+    have : S = [] := List.eq_nil_of_length_eq_zero (by omega)
+    subst this
+    simp at *
+  | k + 1, S, n, p, hk, h => by
+    have hn := h.src_mem
+    have hlen : (S.erase n).length ≤ k := by
+      rw [List.length_erase_of_mem hn]; omega
+    rcases h.split n with h' | ⟨q, hq, h'⟩
+    · exact (InhIn.bounded k _ hlen h').mono (by omega)
+    · rcases h' with rfl | h'
+      · exact .direct hq
+      · exact .step hq (InhIn.bounded k _ hlen h')
+
+theorem mem_namespaces_of_parents {d : Decls} {n p : String} (h : p ∈ parentsOf d n) : n ∈ namespaces d := by
+  unfold namespaces
+  rw [List.mem_eraseDups]
+  unfold parentsOf at h
+  by_cases hr : n = rootName
+  · simp [hr] at h
+  · rw [if_neg hr] at h
+    cases hl : d.lookup n with
+    | none => rw [hl] at h; simp at h
+    | some ps =>
+      exact List.mem_cons_of_mem _ (List.mem_map.mpr ⟨_, mem_of_lookup hl, rfl⟩)
+
+theorem Inherits.toInhIn {d : Decls} {n p : String} (h : Inherits d n p) : InhIn d (namespaces d) n p := by
+  induction h with
+  | direct hp => exact .direct (mem_namespaces_of_parents hp) hp
+  | step hq _ ih => exact .step (mem_namespaces_of_parents hq) hq ih
+
+/-- the fuel of `ancestors` is enough: it finds every ancestor -/
+theorem mem_ancestors_full (d : Decls) (n p : String) :
+    p ∈ ancestors d (namespaces d).length n ↔ Inherits d n p := by
+  rw [mem_ancestors_iff]
+  exact ⟨InheritsN.toInherits, fun h => InhIn.bounded _ _ (Nat.le_refl _) h.toInhIn⟩
+
+theorem mem_insertStr (x a : String) : ∀ l : List String, x ∈ insertStr a l ↔ x = a ∨ x ∈ l
+  | [] => by simp [insertStr]
+  | b :: r => by
+    unfold insertStr
+    split
+    · simp
+    · simp only [List.mem_cons, mem_insertStr x a r]
+      constructor
+      · rintro (h | h | h)
+        · exact Or.inr (Or.inl h)
+        · exact Or.inl h
+        · exact Or.inr (Or.inr h)
+      · rintro (h | h | h)
+        · exact Or.inr (Or.inl h)
+        · exact Or.inl h
+        · exact Or.inr (Or.inr h)
+
+theorem mem_sortStrings (x : String) : ∀ l : List String, x ∈ sortStrings l ↔ x ∈ l
+  | [] => by simp [sortStrings]
+  | a :: r => by
+    have ih := mem_sortStrings x r
+    unfold sortStrings at ih ⊢
+    simp only [List.foldr_cons, mem_insertStr, ih, List.mem_cons]
+
+theorem lookup_map_graph {β : Type} (g : String → β) :
+    ∀ (l : List String) {k : String} {v : β}, (l.map fun a => (a, g a)).lookup k = some v → v = g k ∧ k ∈ l
+  | [], _, _, h => by simp [List.lookup] at h
+  | a :: r, k, v, h => by
+    simp only [List.map_cons, List.lookup_cons] at h
+    cases hk : (k == a) with
+    | true =>
+      rw [hk] at h
+      have e : k = a := by simpa using hk
+      subst e
+      simp only [Option.some.injEq] at h
+      exact ⟨h.symm, by simp⟩
+    | false =>
+      rw [hk] at h
+      have := lookup_map_graph g r h
+      exact ⟨this.1, List.mem_cons_of_mem _ this.2⟩
+
+theorem isFamily_iff (d : Decls) (t : String) : isFamily d t = true ↔ ∃ x, Inherits d x t := by
+  unfold isFamily descendants
+  constructor
+  · intro h
+    cases hf : (namespaces d).filter (fun n => (ancestors d (namespaces d).length n).contains t) with
+    | nil => rw [hf] at h; simp at h
+    | cons x r =>
+      have : x ∈ (namespaces d).filter (fun n => (ancestors d (namespaces d).length n).contains t) := by
+        rw [hf]; simp
+      rw [List.mem_filter] at this
+      exact ⟨x, (mem_ancestors_full d x t).mp (by simpa using this.2)⟩
+  · rintro ⟨x, hx⟩
+    have hx' : x ∈ (namespaces d).filter (fun n => (ancestors d (namespaces d).length n).contains t) := by
+      rw [List.mem_filter]
+      refine ⟨?_, by simpa using (mem_ancestors_full d x t).mpr hx⟩
+      cases hx with
+      | direct h => exact mem_namespaces_of_parents h
+      | step h _ => exact mem_namespaces_of_parents h
+    cases hf : (namespaces d).filter (fun n => (ancestors d (namespaces d).length n).contains t) with
+    | nil => rw [hf] at hx'; simp at hx'
+    | cons _ _ => simp
+
+/-- the members of a family in the family map: the namespaces that inherit from it, directly or
+through nested families, and from which nothing inherits (the tasks) -/
+theorem familyMap_members (d : Decls) (F : String) (ms : List String)
+    (h : (familyMap d).lookup F = some ms) (m : String) :
+    m ∈ ms ↔ (Inherits d m F ∧ ¬ ∃ x, Inherits d x m) := by
+  unfold familyMap at h
+  have := (lookup_map_graph _ _ h).1
+  subst this
+  rw [mem_sortStrings, List.mem_filter]
+  unfold descendants
+  rw [List.mem_filter]
+  constructor
+  · rintro ⟨⟨_, h1⟩, h2⟩
+    refine ⟨(mem_ancestors_full d m F).mp (by simpa using h1), ?_⟩
+    intro hx
+    have := (isFamily_iff d m).mpr hx
+    simp [this] at h2
+  · rintro ⟨h1, h2⟩
+    refine ⟨⟨?_, by simpa using (mem_ancestors_full d m F).mpr h1⟩, ?_⟩
+    · cases h1 with
+      | direct h => exact mem_namespaces_of_parents h
+      | step h _ => exact mem_namespaces_of_parents h
+    · cases hf : isFamily d m with
+      | false => rfl
+      | true => exact absurd ((isFamily_iff d m).mp hf) h2
+
 end CylcModel.Fam
